@@ -715,6 +715,10 @@ fn apply_sack_to_sent_queue(
 impl<'a> Drop for SctpCleanupGuard<'a> {
     fn drop(&mut self) {
         *self.inner.state.lock() = SctpState::Closed;
+        // Wake senders parked on the buffered-amount gate: the run loop can end without
+        // `close()` (remote ABORT, heartbeat timeout, DTLS/ICE loss, task abort) and nobody
+        // else would ever notify them.
+        self.inner.flow_control_notify.notify_waiters();
 
         let channels = self.inner.data_channels.lock();
         for weak_dc in channels.iter() {
